@@ -19,7 +19,8 @@ FUNCS = [
     "(executed in context, third party) binja_test_mocks.eval_llil:evaluate_llil and EVAL_LLIL handlers",
 ]
 
-QUICK_PRES_C03 = [0x21, 0x27, 0x30, 0x36, 0x33]   # together they exercise every first/second mode
+BCD_OPS = {0xC4, 0xC5, 0xD4, 0xD5}
+QUICK_PRES_C03 = [0x21, 0x27, 0x30, 0x36]   # together they exercise every first/second mode
 ASSUME = [
     "meaning of the lifted IL = what binja_test_mocks.eval_llil computes (the evaluator the emulator runs)",
     "specification = /verif/spec/isa.py, my transcription of sc62015/pysc62015/README.md; where the README is silent the case is excluded by a stated definedness condition (pointer arithmetic leaving the 1 MiB external space, internal multi-byte accesses / block cursors running past (FF), stack under/overflow, near jumps/calls/returns whose next address crosses a 64 KiB page, register both data and auto-modified pointer, BCD digits > 9, exchange overwriting a BP/PX/PY cell its other operand uses)",
@@ -30,15 +31,39 @@ ASSUME = [
 ]
 
 
+def imem_opcodes():
+    """Opcodes whose rendered text contains an internal-memory operand (decided by decoding)."""
+    import os
+    os.environ["FORCE_BINJA_MOCK"] = "1"
+    if common.REPO not in sys.path:
+        sys.path.insert(0, common.REPO)
+    from binja_test_mocks import binja_api  # noqa: F401
+    from sc62015.pysc62015.instr import decode, OPCODES
+    from binja_test_mocks.tokens import asm_str
+    out = set()
+    for op in range(256):
+        for mb in (0x04, 0x24, 0x84, 0x00, 0x80, 0x42):
+            try:
+                ins = decode(bytes([op, mb, 0x12, 0x34, 0x05, 0x66, 0x77]), 0x1000, OPCODES)
+                if ins is not None and "(" in asm_str(ins.render()):
+                    out.add(op)
+            except Exception:  # noqa: BLE001
+                pass
+    return out
+
+
 def units_for(prop, tier):
     units = []
 
-    def add(pre, blocks, **kw):
+    def add(pre, blocks, only=None, **kw):
         for op in range(256):
-            if op in cpu.PRE_BYTES:
+            if op in cpu.PRE_BYTES or (only is not None and op not in only):
                 continue
-            if op in cpu.BLOCK_OPS:
+            if op in cpu.BLOCK_OPS or (op == 0xEF and pre is not None):
+                # (a prefixed WAIT misses the emulator's fast path and really loops I times)
                 for n in blocks:
+                    if op in BCD_OPS and n > kw.get("bcd_max", 1):
+                        continue        # BCD digit adjust forks 4 ways per byte at IL level
                     units.append(dict(pre=pre, opcode=op, block_n=n, wall_s=kw.get("wall_s", 500)))
             else:
                 units.append(dict(pre=pre, opcode=op, wall_s=kw.get("wall_s", 500)))
@@ -48,15 +73,18 @@ def units_for(prop, tier):
             add(None, [1, 2])
         else:
             for pre in (None, 0x32, 0x25, 0x30):
-                add(pre, [1, 2, 3], wall_s=1500)
+                add(pre, [1, 2, 3], wall_s=3000, bcd_max=2 if pre is None else 1)
     elif prop == "C03":
+        im = imem_opcodes()
         if tier == "quick":
             for pre in QUICK_PRES_C03:
-                add(pre, [1])
+                add(pre, [1], only=im)
         else:
             for pre in cpu.PRE_BYTES:
-                add(pre, [1, 2], wall_s=1500)
-            add(None, [3], wall_s=1500)
+                add(pre, [1, 2], wall_s=3000)
+            add(None, [3], wall_s=3000)
+    heavy = {0xD4: 0, 0xC4: 1, 0xD5: 2, 0xC5: 3, 0x56: 4, 0x5E: 4, 0xF3: 5, 0xFB: 5, 0xEB: 6, 0xE3: 6, 0x54: 7, 0x5C: 7}
+    units.sort(key=lambda u: (heavy.get(u["opcode"], 50) - 10 * (u.get("block_n") or 0), u["opcode"]))
     return units
 
 
@@ -92,6 +120,8 @@ def run(prop, tier):
     known = common.load_known(prop)
     if prop in ("C03", "C04"):
         units = units_for(prop, tier)
+        for u in units:
+            u["known"] = [e for e in known if "witness" in e.get("match", {}) and common.unit_matches(e, u)]
         reps = common.run_units("contracts.cpu:unit_entry", units, budget=max(u["wall_s"] for u in units))
         # C03 looks at locations (memory image, pointer registers, read footprint); C04 at everything.
         v.absorb(reps, known)
